@@ -1921,7 +1921,15 @@ class FileIterator(FileStorageFormatter):
                      self._file_name, pos, start)
         while 1:
             # Read the transaction record
-            h = self._read_txn_header(pos)
+            try:
+                h = self._read_txn_header(pos)
+            except CorruptedDataError as err:
+                if len(err.buf) < TRANS_HDR_LEN:
+                    # End of the data, or the beginning of a transaction
+                    # that is being written: nothing at or after start.
+                    self._pos = pos
+                    return
+                raise
             if h.tid >= start:
                 self._pos = pos
                 return
